@@ -1,1 +1,634 @@
-fn main() { let _ = datafusion_proto::bytes::physical_plan_to_bytes; println!("placeholder"); }
+//! C36: physical plans survive protobuf serialisation unchanged.
+//! Streams (one JSON object per line, "k" = stream):
+//!   op   : fixed witnesses first, then directly built operators covering every variant of the enum-like tables
+//!          (HashJoinExec JoinType x PartitionMode x NullEquality (+ filter sides, projection incl. the empty one, fetch),
+//!          SymmetricHashJoinExec, AggregateExec modes, SortExec / SortPreservingMerge options x fetch, window frames, limits, repartitioning ...):
+//!          physical_plan_to_bytes -> physical_plan_from_bytes; ok = same displayable().indent(true) text, same schema, same rows when executed.
+//!          Each case also reports the wire tags observed in the encoded PhysicalPlanNode and the variants read back from the decoded operator
+//!          ("obs": table, variant, tag, back) for the correspondence with the generated tables.
+//!   plan : physical plans of a SQL corpus and of refsql_gen (C01) queries under several session configurations, over MemTables and parquet
+//!          listing tables; same oracle (+ the JSON form).
+//!   c36 --seed S --n N
+#[path = "../refsql_gen.rs"]
+mod refsql_gen;
+
+use std::panic::{catch_unwind, AssertUnwindSafe};
+use std::sync::Arc;
+
+use arrow::array::{ArrayRef, BooleanArray, Int64Array, StringArray};
+use arrow::compute::SortOptions;
+use arrow::datatypes::{DataType, Field, Schema, SchemaRef};
+use arrow::record_batch::RecordBatch;
+use arrow::util::display::{ArrayFormatter, FormatOptions};
+use datafusion::common::{JoinSide, JoinType, NullEquality, ScalarValue};
+use datafusion::datasource::memory::MemorySourceConfig;
+use datafusion::datasource::MemTable;
+use datafusion::logical_expr::{Operator, WindowFrame, WindowFrameBound, WindowFrameUnits, WindowFunctionDefinition};
+use datafusion::physical_expr::aggregate::AggregateExprBuilder;
+use datafusion::physical_expr::expressions::{binary, col, lit, Column};
+use datafusion::physical_expr::{LexOrdering, PhysicalExpr, PhysicalSortExpr};
+use datafusion::physical_plan::aggregates::{AggregateExec, AggregateMode, PhysicalGroupBy};
+use datafusion::physical_plan::coalesce_partitions::CoalescePartitionsExec;
+use datafusion::physical_plan::filter::FilterExec;
+use datafusion::physical_plan::joins::utils::{ColumnIndex, JoinFilter};
+use datafusion::physical_plan::joins::{CrossJoinExec, HashJoinExec, NestedLoopJoinExec, PartitionMode, SortMergeJoinExec, StreamJoinPartitionMode, SymmetricHashJoinExec};
+use datafusion::physical_plan::limit::{GlobalLimitExec, LocalLimitExec};
+use datafusion::physical_plan::projection::ProjectionExec;
+use datafusion::physical_plan::repartition::RepartitionExec;
+use datafusion::physical_plan::sorts::sort::SortExec;
+use datafusion::physical_plan::sorts::sort_preserving_merge::SortPreservingMergeExec;
+use datafusion::physical_plan::union::UnionExec;
+use datafusion::physical_plan::windows::{create_window_expr, BoundedWindowAggExec, WindowAggExec};
+use datafusion::physical_plan::{displayable, ExecutionPlan, InputOrderMode, Partitioning};
+use datafusion::prelude::*;
+use datafusion_proto::bytes::{physical_plan_from_bytes, physical_plan_from_json, physical_plan_to_bytes, physical_plan_to_json};
+use datafusion_proto::physical_plan::{AsExecutionPlan, DefaultPhysicalExtensionCodec, DefaultPhysicalProtoConverter};
+use datafusion_proto::protobuf as pb;
+use h_util::{arg, json_str, Rng};
+use refsql_gen::*;
+
+fn kind_name(s: &str) -> String { s.chars().take_while(|c| c.is_ascii_alphanumeric() || *c == '_').collect() }
+fn dbg_kind<T: std::fmt::Debug>(v: &T) -> String { kind_name(&format!("{v:?}")) }
+fn panic_msg(p: Box<dyn std::any::Any + Send>) -> String {
+    p.downcast_ref::<String>().cloned().or_else(|| p.downcast_ref::<&str>().map(|s| s.to_string())).unwrap_or_else(|| "panic".into())
+}
+
+// ------------------------------------------------------------------------------------------------ inputs
+fn left_schema() -> SchemaRef { Arc::new(Schema::new(vec![Field::new("a", DataType::Int64, true), Field::new("b", DataType::Int64, true), Field::new("s", DataType::Utf8, true)])) }
+fn right_schema() -> SchemaRef { Arc::new(Schema::new(vec![Field::new("x", DataType::Int64, true), Field::new("y", DataType::Int64, true)])) }
+fn left_batches() -> Vec<Vec<RecordBatch>> {
+    let b1 = RecordBatch::try_new(left_schema(), vec![
+        Arc::new(Int64Array::from(vec![Some(1), Some(2), None, Some(2), Some(5)])) as ArrayRef,
+        Arc::new(Int64Array::from(vec![Some(10), None, Some(3), Some(-4), Some(0)])),
+        Arc::new(StringArray::from(vec![Some("a"), Some(""), None, Some("ab"), Some("a")]))]).unwrap();
+    let b2 = RecordBatch::try_new(left_schema(), vec![
+        Arc::new(Int64Array::from(vec![Some(3), None, Some(1)])) as ArrayRef,
+        Arc::new(Int64Array::from(vec![Some(7), Some(7), Some(1)])),
+        Arc::new(StringArray::from(vec![Some("b"), Some("a"), None]))]).unwrap();
+    vec![vec![b1], vec![b2]]
+}
+fn right_batches() -> Vec<Vec<RecordBatch>> {
+    let b1 = RecordBatch::try_new(right_schema(), vec![
+        Arc::new(Int64Array::from(vec![Some(1), Some(2), None, Some(4), Some(2)])) as ArrayRef,
+        Arc::new(Int64Array::from(vec![Some(5), None, Some(2), Some(4), Some(9)]))]).unwrap();
+    vec![vec![b1]]
+}
+fn left() -> Arc<dyn ExecutionPlan> { MemorySourceConfig::try_new_exec(&left_batches(), left_schema(), None).unwrap() }
+fn right() -> Arc<dyn ExecutionPlan> { MemorySourceConfig::try_new_exec(&right_batches(), right_schema(), None).unwrap() }
+fn left1() -> Arc<dyn ExecutionPlan> { Arc::new(CoalescePartitionsExec::new(left())) }
+fn c(name: &str, s: &SchemaRef) -> Arc<dyn PhysicalExpr> { col(name, s).unwrap() }
+
+fn rows_of(batches: &[RecordBatch]) -> Vec<String> {
+    let fo = FormatOptions::default().with_null("NULL");
+    let mut rows = vec![];
+    for b in batches {
+        let fs: Vec<ArrayFormatter> = b.columns().iter().map(|c| ArrayFormatter::try_new(c.as_ref(), &fo).unwrap()).collect();
+        for r in 0..b.num_rows() { rows.push(fs.iter().map(|f| f.value(r).to_string()).collect::<Vec<_>>().join("|")); }
+    }
+    rows
+}
+
+// ------------------------------------------------------------------------------------------------ the oracle
+struct Out { ok: bool, skipped: Option<String>, why: Option<String>, text: String, bytes: usize, rows: i64, back: Option<Arc<dyn ExecutionPlan>>, node: Option<pb::PhysicalPlanNode> }
+
+async fn check(ctx: &SessionContext, fresh: &SessionContext, plan: &Arc<dyn ExecutionPlan>, exec: bool, ordered: bool) -> Out {
+    let text = format!("{}", displayable(plan.as_ref()).indent(true));
+    let mut out = Out { ok: true, skipped: None, why: None, text: text.clone(), bytes: 0, rows: -1, back: None, node: None };
+    let codec = DefaultPhysicalExtensionCodec {};
+    let conv = DefaultPhysicalProtoConverter {};
+    out.node = pb::PhysicalPlanNode::try_from_physical_plan(plan.clone(), &codec, &conv).ok();
+    let bytes = match physical_plan_to_bytes(plan.clone()) { Ok(b) => b, Err(e) => { out.skipped = Some(format!("encoding failed: {e}")); return out; } };
+    out.bytes = bytes.len();
+    let fail = |o: &mut Out, w: String| { if o.ok { o.ok = false; o.why = Some(w); } };
+    let back = match physical_plan_from_bytes(&bytes, fresh.task_ctx().as_ref()) { Ok(b) => b, Err(e) => { fail(&mut out, format!("decoding failed: {e}")); return out; } };
+    let t2 = format!("{}", displayable(back.as_ref()).indent(true));
+    if t2 != text { fail(&mut out, format!("displayable().indent(true) differs after the round trip:\n{t2}")); }
+    if back.schema() != plan.schema() { fail(&mut out, format!("schema differs after the round trip: {:?} vs {:?}", back.schema(), plan.schema())); }
+    if back.output_partitioning().partition_count() != plan.output_partitioning().partition_count() { fail(&mut out, "output partition count differs".to_string()); }
+    match physical_plan_to_json(plan.clone()) {
+        Ok(js) => match physical_plan_from_json(&js, fresh.task_ctx().as_ref()) {
+            Ok(b2) => { let t3 = format!("{}", displayable(b2.as_ref()).indent(true)); if t3 != text { fail(&mut out, format!("JSON round trip changes the plan:\n{t3}")); } }
+            Err(e) => fail(&mut out, format!("decoding the JSON form failed: {e}")),
+        },
+        Err(e) => fail(&mut out, format!("binary encoding succeeded but JSON encoding failed: {e}")),
+    }
+    out.back = Some(back.clone());
+    if exec && out.ok {
+        let r1 = datafusion::physical_plan::collect(plan.clone(), ctx.task_ctx()).await;
+        let r2 = datafusion::physical_plan::collect(back, fresh.task_ctx()).await;
+        match (r1, r2) {
+            (Ok(a), Ok(b)) => {
+                let (mut x, mut y) = (rows_of(&a), rows_of(&b));
+                out.rows = x.len() as i64;
+                if !ordered { x.sort(); y.sort(); }
+                if x != y { fail(&mut out, format!("results differ: original {} rows {:?} / decoded {} rows {:?}", x.len(), &x[..x.len().min(6)], y.len(), &y[..y.len().min(6)])); }
+            }
+            (Err(_), Err(_)) => {}
+            (Ok(_), Err(e)) => fail(&mut out, format!("the decoded plan fails to execute: {e}")),
+            (Err(e), Ok(_)) => fail(&mut out, format!("the original plan fails to execute but the decoded one runs: {e}")),
+        }
+    }
+    out
+}
+
+// ------------------------------------------------------------------------------------------------ observations of enum tags
+struct Obs { table: &'static str, variant: String, tag: i64, back: Option<String> }
+fn obs_json(o: &[Obs]) -> String {
+    format!("[{}]", o.iter().map(|x| format!("{{\"table\":\"{}\",\"variant\":\"{}\",\"tag\":{},\"back\":{}}}", x.table, x.variant, x.tag,
+        x.back.as_ref().map(|b| json_str(b)).unwrap_or("null".into()))).collect::<Vec<_>>().join(","))
+}
+fn down<T: 'static>(p: &Option<Arc<dyn ExecutionPlan>>) -> Option<&T> { p.as_ref().and_then(|x| x.as_any().downcast_ref::<T>()) }
+
+fn observe(plan: &Arc<dyn ExecutionPlan>, out: &Out) -> Vec<Obs> {
+    use pb::physical_plan_node::PhysicalPlanType as T;
+    let mut v = vec![];
+    let Some(node) = &out.node else { return v };
+    match (node.physical_plan_type.as_ref(), plan.as_any()) {
+        (Some(T::HashJoin(n)), a) if a.is::<HashJoinExec>() => {
+            let o = a.downcast_ref::<HashJoinExec>().unwrap();
+            let b = down::<HashJoinExec>(&out.back);
+            v.push(Obs { table: "PJoinType", variant: dbg_kind(o.join_type()), tag: n.join_type as i64, back: b.map(|x| dbg_kind(x.join_type())) });
+            v.push(Obs { table: "PartitionMode", variant: dbg_kind(o.partition_mode()), tag: n.partition_mode as i64, back: b.map(|x| dbg_kind(x.partition_mode())) });
+            v.push(Obs { table: "PNullEquality", variant: dbg_kind(&o.null_equality()), tag: n.null_equality as i64, back: b.map(|x| dbg_kind(&x.null_equality())) });
+            if let (Some(f), Some(pf)) = (o.filter(), n.filter.as_ref()) {
+                for (i, ci) in f.column_indices().iter().enumerate() {
+                    let bk = b.and_then(|x| x.filter()).and_then(|bf| bf.column_indices().get(i).map(|z| dbg_kind(&z.side)));
+                    v.push(Obs { table: "PJoinSide", variant: dbg_kind(&ci.side), tag: pf.column_indices[i].side as i64, back: bk });
+                }
+            }
+        }
+        (Some(T::SymmetricHashJoin(n)), a) if a.is::<SymmetricHashJoinExec>() => {
+            let o = a.downcast_ref::<SymmetricHashJoinExec>().unwrap();
+            let b = down::<SymmetricHashJoinExec>(&out.back);
+            v.push(Obs { table: "SymJoinType", variant: dbg_kind(o.join_type()), tag: n.join_type as i64, back: b.map(|x| dbg_kind(x.join_type())) });
+            v.push(Obs { table: "SymNullEquality", variant: dbg_kind(&o.null_equality()), tag: n.null_equality as i64, back: b.map(|x| dbg_kind(&x.null_equality())) });
+            v.push(Obs { table: "StreamJoinPartitionMode", variant: dbg_kind(&o.partition_mode()), tag: n.partition_mode as i64, back: b.map(|x| dbg_kind(&x.partition_mode())) });
+            if let (Some(f), Some(pf)) = (o.filter(), n.filter.as_ref()) {
+                for (i, ci) in f.column_indices().iter().enumerate() {
+                    let bk = b.and_then(|x| x.filter()).and_then(|bf| bf.column_indices().get(i).map(|z| dbg_kind(&z.side)));
+                    v.push(Obs { table: "SymJoinSide", variant: dbg_kind(&ci.side), tag: pf.column_indices[i].side as i64, back: bk });
+                }
+            }
+        }
+        (Some(T::Aggregate(n)), a) if a.is::<AggregateExec>() => {
+            let o = a.downcast_ref::<AggregateExec>().unwrap();
+            let b = down::<AggregateExec>(&out.back);
+            v.push(Obs { table: "AggregateMode", variant: dbg_kind(o.mode()), tag: n.mode as i64, back: b.map(|x| dbg_kind(x.mode())) });
+        }
+        (Some(T::Window(n)), a) => {
+            let frames = |p: &dyn std::any::Any| -> Vec<Arc<WindowFrame>> {
+                if let Some(w) = p.downcast_ref::<BoundedWindowAggExec>() { w.window_expr().iter().map(|e| e.get_window_frame().clone()).collect() }
+                else if let Some(w) = p.downcast_ref::<WindowAggExec>() { w.window_expr().iter().map(|e| e.get_window_frame().clone()).collect() } else { vec![] }
+            };
+            let of = frames(a);
+            let bf = out.back.as_ref().map(|b| frames(b.as_any())).unwrap_or_default();
+            for (i, f) in of.iter().enumerate() {
+                let Some(pf) = n.window_expr.get(i).and_then(|w| w.window_frame.as_ref()) else { continue };
+                v.push(Obs { table: "PWindowFrameUnits", variant: dbg_kind(&f.units), tag: pf.window_frame_units as i64, back: bf.get(i).map(|x| dbg_kind(&x.units)) });
+                if let Some(sb) = &pf.start_bound { v.push(Obs { table: "PWindowFrameBound", variant: dbg_kind(&f.start_bound), tag: sb.window_frame_bound_type as i64, back: bf.get(i).map(|x| dbg_kind(&x.start_bound)) }); }
+                if let Some(pb::window_frame::EndBound::Bound(eb)) = &pf.end_bound { v.push(Obs { table: "PWindowFrameBound", variant: dbg_kind(&f.end_bound), tag: eb.window_frame_bound_type as i64, back: bf.get(i).map(|x| dbg_kind(&x.end_bound)) }); }
+            }
+        }
+        _ => {}
+    }
+    v
+}
+
+
+fn olist(p: Option<&[usize]>) -> String { match p { Some(v) => format!("[{}]", v.iter().map(|x| x.to_string()).collect::<Vec<_>>().join(",")), None => "null".into() } }
+fn oint(p: Option<usize>) -> String { p.map(|x| x.to_string()).unwrap_or("null".into()) }
+/// the option block of a HashJoinExec: operator, wire node, decoded operator
+fn observe_hj(plan: &Arc<dyn ExecutionPlan>, out: &Out) -> String {
+    use pb::physical_plan_node::PhysicalPlanType as T;
+    let (Some(node), Some(o)) = (&out.node, plan.as_any().downcast_ref::<HashJoinExec>()) else { return "null".into() };
+    let Some(T::HashJoin(n)) = node.physical_plan_type.as_ref() else { return "null".into() };
+    let side = |x: &HashJoinExec| format!("{{\"jt\":\"{:?}\",\"pm\":\"{:?}\",\"ne\":\"{:?}\",\"na\":{},\"proj\":{},\"fetch\":{}}}", x.join_type(), x.partition_mode(), x.null_equality(),
+        x.null_aware, olist(x.projection.as_deref()), oint(x.fetch()));
+    let b = down::<HashJoinExec>(&out.back).map(side).unwrap_or("null".into());
+    format!("{{\"op\":{},\"wire\":{{\"jt\":{},\"pm\":{},\"ne\":{},\"na\":{},\"proj\":[{}],\"fetch\":{}}},\"back\":{b}}}", side(o), n.join_type, n.partition_mode, n.null_equality, n.null_aware,
+        n.projection.iter().map(|x| x.to_string()).collect::<Vec<_>>().join(","), n.fetch.map(|x| x.to_string()).unwrap_or("null".into()))
+}
+/// sort options of the top SortPreservingMergeExec / SortExec: operator, wire flags, decoded operator
+fn observe_sort(plan: &Arc<dyn ExecutionPlan>, out: &Out) -> String {
+    use pb::physical_plan_node::PhysicalPlanType as T;
+    let Some(node) = &out.node else { return "[]".into() };
+    fn find_sort(p: &Arc<dyn ExecutionPlan>) -> Option<Vec<SortOptions>> {
+        if let Some(s) = p.as_any().downcast_ref::<SortExec>() { return Some(s.expr().iter().map(|e| e.options).collect()); }
+        p.children().first().and_then(|c| find_sort(c))
+    }
+    fn find_node(n: &pb::PhysicalPlanNode) -> Option<&pb::SortExecNode> {
+        match n.physical_plan_type.as_ref()? { T::Sort(s) => Some(s), T::SortPreservingMerge(m) => find_node(m.input.as_ref()?), T::CoalescePartitions(m) => find_node(m.input.as_ref()?), _ => None }
+    }
+    let (Some(o), Some(w)) = (find_sort(plan), find_node(node)) else { return "[]".into() };
+    let b = out.back.as_ref().and_then(find_sort).unwrap_or_default();
+    let mut v = vec![];
+    for (i, so) in o.iter().enumerate() {
+        let Some(pb::physical_expr_node::ExprType::Sort(ps)) = w.expr.get(i).and_then(|e| e.expr_type.as_ref()) else { continue };
+        let Some(bo) = b.get(i) else { continue };
+        v.push(format!("{{\"desc\":{},\"nf\":{},\"w_asc\":{},\"w_nf\":{},\"b_desc\":{},\"b_nf\":{}}}", so.descending, so.nulls_first, ps.asc, ps.nulls_first, bo.descending, bo.nulls_first));
+    }
+    format!("[{}]", v.join(","))
+}
+
+// ------------------------------------------------------------------------------------------------ operator cases
+const JOIN_TYPES: [JoinType; 10] = [JoinType::Inner, JoinType::Left, JoinType::Right, JoinType::Full, JoinType::LeftSemi, JoinType::RightSemi,
+    JoinType::LeftAnti, JoinType::RightAnti, JoinType::LeftMark, JoinType::RightMark];
+
+fn join_filter(sides: &[JoinSide]) -> JoinFilter {
+    // a.b > y  (+ an intermediate column without a side when asked for)
+    let mut fields = vec![Field::new("b", DataType::Int64, true), Field::new("y", DataType::Int64, true)];
+    let mut idx = vec![ColumnIndex { index: 1, side: sides[0] }, ColumnIndex { index: 1, side: sides[1] }];
+    if sides.len() > 2 { fields.push(Field::new("z", DataType::Int64, true)); idx.push(ColumnIndex { index: 0, side: sides[2] }); }
+    let schema = Arc::new(Schema::new(fields));
+    let e = binary(c("b", &schema), Operator::Gt, c("y", &schema), &schema).unwrap();
+    JoinFilter::new(e, idx, schema)
+}
+
+fn sort_exprs(s: &SchemaRef, spec: &[(&str, bool, bool)]) -> LexOrdering {
+    LexOrdering::new(spec.iter().map(|(n, desc, nf)| PhysicalSortExpr { expr: c(n, s), options: SortOptions { descending: *desc, nulls_first: *nf } }).collect::<Vec<_>>()).unwrap()
+}
+
+fn sum_agg(ctx: &SessionContext, schema: &SchemaRef, colname: &str) -> Arc<datafusion::physical_expr::aggregate::AggregateFunctionExpr> {
+    let f = ctx.state().aggregate_functions().get("sum").cloned().unwrap();
+    Arc::new(AggregateExprBuilder::new(f, vec![c(colname, schema)]).schema(schema.clone()).alias(format!("sum({colname})")).build().unwrap())
+}
+
+/// (name, known-finding key, plan, execute?, compare in order?)
+type Case = (String, &'static str, Arc<dyn ExecutionPlan>, bool, bool);
+
+fn op_cases(ctx: &SessionContext) -> Vec<Case> {
+    let mut v: Vec<Case> = vec![];
+    let (ls, rs) = (left_schema(), right_schema());
+    let on = || vec![(c("a", &ls), c("x", &rs))];
+    let mut push = |name: String, r: datafusion::common::Result<Arc<dyn ExecutionPlan>>, exec: bool, ordered: bool| {
+        match r { Ok(p) => v.push((name, "", p, exec, ordered)), Err(e) => eprintln!("cannot build {name}: {e}") }
+    };
+    // ---- HashJoinExec: JoinType x PartitionMode x NullEquality
+    for jt in JOIN_TYPES {
+        for pm in [PartitionMode::CollectLeft, PartitionMode::Partitioned, PartitionMode::Auto] {
+            for ne in [NullEquality::NullEqualsNothing, NullEquality::NullEqualsNull] {
+                let (l, r): (Arc<dyn ExecutionPlan>, Arc<dyn ExecutionPlan>) = match pm {
+                    PartitionMode::Partitioned => (Arc::new(RepartitionExec::try_new(left(), Partitioning::Hash(vec![c("a", &ls)], 2)).unwrap()),
+                                                   Arc::new(RepartitionExec::try_new(right(), Partitioning::Hash(vec![c("x", &rs)], 2)).unwrap())),
+                    _ => (left1(), right()),
+                };
+                let r = HashJoinExec::try_new(l, r, on(), None, &jt, None, pm, ne, false).map(|x| Arc::new(x) as Arc<dyn ExecutionPlan>);
+                push(format!("HashJoinExec {jt:?} {pm:?} {ne:?}"), r, !matches!(pm, PartitionMode::Auto), false);
+            }
+        }
+    }
+    // filter sides, projections (None / empty / some), fetch
+    for (k, sides) in [vec![JoinSide::Left, JoinSide::Right], vec![JoinSide::Right, JoinSide::Left], vec![JoinSide::Left, JoinSide::Right, JoinSide::None]].into_iter().enumerate() {
+        let f = if sides[0] == JoinSide::Right { let mut f = join_filter(&sides); f = JoinFilter::new(f.expression().clone(), vec![ColumnIndex { index: 1, side: JoinSide::Right }, ColumnIndex { index: 1, side: JoinSide::Left }], f.schema().clone()); f } else { join_filter(&sides) };
+        let r = HashJoinExec::try_new(left1(), right(), on(), Some(f), &JoinType::Inner, None, PartitionMode::CollectLeft, NullEquality::NullEqualsNothing, false).map(|x| Arc::new(x) as Arc<dyn ExecutionPlan>);
+        push(format!("HashJoinExec filter sides #{k} {sides:?}"), r, sides.len() == 2, false);
+    }
+    for proj in [Some(vec![]), Some(vec![0usize]), Some(vec![4, 1]), Some(vec![0, 1, 2, 3, 4])] {
+        let r = HashJoinExec::try_new(left1(), right(), on(), None, &JoinType::Inner, proj.clone(), PartitionMode::CollectLeft, NullEquality::NullEqualsNothing, false).map(|x| Arc::new(x) as Arc<dyn ExecutionPlan>);
+        push(format!("HashJoinExec projection {proj:?}"), r, true, false);
+    }
+    for fetch in [Some(0usize), Some(2), Some(1 << 40)] {
+        let r = HashJoinExec::try_new(left1(), right(), on(), None, &JoinType::Left, None, PartitionMode::CollectLeft, NullEquality::NullEqualsNothing, false)
+            .map(|x| x.with_fetch(fetch).unwrap_or_else(|| Arc::new(x) as Arc<dyn ExecutionPlan>));
+        push(format!("HashJoinExec fetch {fetch:?}"), r, false, false);
+    }
+    let r = HashJoinExec::try_new(left1(), right(), on(), None, &JoinType::LeftAnti, None, PartitionMode::CollectLeft, NullEquality::NullEqualsNothing, true).map(|x| Arc::new(x) as Arc<dyn ExecutionPlan>);
+    push("HashJoinExec null_aware LeftAnti".into(), r, true, false);
+    // ---- SymmetricHashJoinExec
+    for jt in JOIN_TYPES {
+        for (ne, mode) in [(NullEquality::NullEqualsNothing, StreamJoinPartitionMode::SinglePartition), (NullEquality::NullEqualsNull, StreamJoinPartitionMode::Partitioned)] {
+            let (l, r): (Arc<dyn ExecutionPlan>, Arc<dyn ExecutionPlan>) = match mode {
+                StreamJoinPartitionMode::Partitioned => (Arc::new(RepartitionExec::try_new(left(), Partitioning::Hash(vec![c("a", &ls)], 2)).unwrap()),
+                                                         Arc::new(RepartitionExec::try_new(right(), Partitioning::Hash(vec![c("x", &rs)], 2)).unwrap())),
+                _ => (left1(), right()),
+            };
+            let f = if matches!(jt, JoinType::Inner | JoinType::Full) { Some(join_filter(&[JoinSide::Left, JoinSide::Right])) } else { None };
+            let r = SymmetricHashJoinExec::try_new(l, r, on(), f, &jt, ne, None, None, mode).map(|x| Arc::new(x) as Arc<dyn ExecutionPlan>);
+            push(format!("SymmetricHashJoinExec {jt:?} {ne:?} {mode:?}"), r, true, false);
+        }
+    }
+    // ---- other joins
+    for jt in JOIN_TYPES {
+        let r = NestedLoopJoinExec::try_new(left1(), right(), Some(join_filter(&[JoinSide::Left, JoinSide::Right])), &jt, None).map(|x| Arc::new(x) as Arc<dyn ExecutionPlan>);
+        push(format!("NestedLoopJoinExec {jt:?}"), r, true, false);
+        if !matches!(jt, JoinType::RightMark) {
+            let sl: Arc<dyn ExecutionPlan> = Arc::new(SortExec::new(sort_exprs(&ls, &[("a", false, false)]), left1()));
+            let sr: Arc<dyn ExecutionPlan> = Arc::new(SortExec::new(sort_exprs(&rs, &[("x", false, false)]), right()));
+            let r = SortMergeJoinExec::try_new(sl, sr, on(), None, jt, vec![SortOptions { descending: false, nulls_first: false }], NullEquality::NullEqualsNull).map(|x| Arc::new(x) as Arc<dyn ExecutionPlan>);
+            push(format!("SortMergeJoinExec {jt:?}"), r, true, false);
+        }
+    }
+    push("CrossJoinExec".into(), Ok(Arc::new(CrossJoinExec::new(left1(), right()))), true, false);
+    // ---- sorts: options x fetch x preserve_partitioning
+    for (desc, nf) in [(false, false), (false, true), (true, false), (true, true)] {
+        for fetch in [None, Some(0usize), Some(3)] {
+            for pp in [false, true] {
+                let s = SortExec::new(sort_exprs(&ls, &[("a", desc, nf), ("b", !desc, nf)]), left()).with_preserve_partitioning(pp).with_fetch(fetch);
+                let plan: Arc<dyn ExecutionPlan> = if pp { Arc::new(SortPreservingMergeExec::new(sort_exprs(&ls, &[("a", desc, nf), ("b", !desc, nf)]), Arc::new(s)).with_fetch(fetch)) } else { Arc::new(CoalescePartitionsExec::new(Arc::new(s))) };
+                push(format!("SortExec desc={desc} nulls_first={nf} fetch={fetch:?} preserve_partitioning={pp}"), Ok(plan), true, pp);
+            }
+        }
+    }
+    // ---- aggregates: every mode
+    let gb = PhysicalGroupBy::new_single(vec![(c("s", &ls), "s".to_string())]);
+    let partial = || AggregateExec::try_new(AggregateMode::Partial, gb.clone(), vec![sum_agg(ctx, &ls, "a")], vec![None], left(), ls.clone()).map(Arc::new);
+    for mode in [AggregateMode::Partial, AggregateMode::Final, AggregateMode::FinalPartitioned, AggregateMode::Single, AggregateMode::SinglePartitioned, AggregateMode::PartialReduce] {
+        let r: datafusion::common::Result<Arc<dyn ExecutionPlan>> = (|| {
+            Ok(match mode {
+                AggregateMode::Partial => partial()? as Arc<dyn ExecutionPlan>,
+                AggregateMode::Single => Arc::new(AggregateExec::try_new(mode, gb.clone(), vec![sum_agg(ctx, &ls, "a")], vec![None], left1(), ls.clone())?),
+                AggregateMode::SinglePartitioned => {
+                    let inp: Arc<dyn ExecutionPlan> = Arc::new(RepartitionExec::try_new(left(), Partitioning::Hash(vec![c("s", &ls)], 2))?);
+                    Arc::new(AggregateExec::try_new(mode, gb.clone(), vec![sum_agg(ctx, &ls, "a")], vec![None], inp, ls.clone())?)
+                }
+                _ => {
+                    let p = partial()?;
+                    let ps = p.schema();
+                    let fgb = PhysicalGroupBy::new_single(vec![(c("s", &ps), "s".to_string())]);
+                    let inp: Arc<dyn ExecutionPlan> = match mode {
+                        AggregateMode::FinalPartitioned => Arc::new(RepartitionExec::try_new(p, Partitioning::Hash(vec![c("s", &ps)], 2))?),
+                        AggregateMode::Final => Arc::new(CoalescePartitionsExec::new(p)),
+                        _ => p,
+                    };
+                    Arc::new(AggregateExec::try_new(mode, fgb, vec![sum_agg(ctx, &ls, "a")], vec![None], inp, ls.clone())?)
+                }
+            })
+        })();
+        push(format!("AggregateExec {mode:?}"), r, true, false);
+    }
+    // ---- windows: every frame unit x bound kind
+    let st = ctx.state();
+    let sum = WindowFunctionDefinition::AggregateUDF(st.aggregate_functions().get("sum").cloned().unwrap());
+    let rn = WindowFunctionDefinition::WindowUDF(st.window_functions().get("row_number").cloned().unwrap());
+    let u = |n: u64| ScalarValue::UInt64(Some(n));
+    use WindowFrameBound as B;
+    let mut frames: Vec<WindowFrame> = vec![];
+    for units in [WindowFrameUnits::Rows, WindowFrameUnits::Groups] {
+        for (s, e) in [(B::Preceding(u(2)), B::CurrentRow), (B::CurrentRow, B::Following(u(3))), (B::Preceding(ScalarValue::UInt64(None)), B::Following(ScalarValue::UInt64(None))),
+                       (B::Preceding(u(5)), B::Preceding(u(1))), (B::Following(u(1)), B::Following(u(4))), (B::CurrentRow, B::CurrentRow)] {
+            frames.push(WindowFrame::new_bounds(units, s, e));
+        }
+    }
+    frames.push(WindowFrame::new_bounds(WindowFrameUnits::Range, B::Preceding(ScalarValue::Int64(Some(10))), B::Following(ScalarValue::Int64(Some(5)))));
+    frames.push(WindowFrame::new_bounds(WindowFrameUnits::Range, B::Preceding(ScalarValue::Int64(None)), B::CurrentRow));
+    frames.push(WindowFrame::new(Some(true)));
+    for (i, fr) in frames.into_iter().enumerate() {
+        let sorted: Arc<dyn ExecutionPlan> = Arc::new(SortExec::new(sort_exprs(&ls, &[("s", false, true), ("a", false, true)]), left1()));
+        let ob = vec![PhysicalSortExpr { expr: c("a", &ls), options: SortOptions { descending: false, nulls_first: true } }];
+        let bounded = !fr.end_bound.is_unbounded();
+        let r: datafusion::common::Result<Arc<dyn ExecutionPlan>> = (|| {
+            let w = create_window_expr(&sum, format!("w{i}"), &[c("b", &ls)], &[c("s", &ls)], &ob, Arc::new(fr.clone()), ls.clone(), i % 2 == 1, false, None)?;
+            Ok(if bounded { Arc::new(BoundedWindowAggExec::try_new(vec![w], sorted, InputOrderMode::Sorted, true)?) as Arc<dyn ExecutionPlan> }
+               else { Arc::new(WindowAggExec::try_new(vec![w], sorted, true)?) })
+        })();
+        push(format!("window sum frame {fr:?}"), r, true, false);
+    }
+    for iom in [InputOrderMode::Linear, InputOrderMode::Sorted, InputOrderMode::PartiallySorted(vec![0])] {
+        let r: datafusion::common::Result<Arc<dyn ExecutionPlan>> = (|| {
+            let sorted: Arc<dyn ExecutionPlan> = Arc::new(SortExec::new(sort_exprs(&ls, &[("s", false, true), ("a", false, true)]), left1()));
+            let parts: Vec<Arc<dyn PhysicalExpr>> = if matches!(iom, InputOrderMode::PartiallySorted(_)) { vec![c("s", &ls), c("b", &ls)] } else { vec![c("s", &ls)] };
+            let w = create_window_expr(&rn, "rn".into(), &[], &parts, &[], Arc::new(WindowFrame::new_bounds(WindowFrameUnits::Rows, B::Preceding(ScalarValue::UInt64(None)), B::CurrentRow)), ls.clone(), false, false, None)?;
+            Ok(Arc::new(BoundedWindowAggExec::try_new(vec![w], sorted, iom.clone(), true)?) as Arc<dyn ExecutionPlan>)
+        })();
+        push(format!("BoundedWindowAggExec row_number {iom:?}"), r, true, false);
+    }
+    // ---- limits, filter, projection, repartitioning, union
+    for (skip, fetch) in [(0usize, Some(2usize)), (1, None), (2, Some(0)), (0, None)] {
+        push(format!("GlobalLimitExec skip={skip} fetch={fetch:?}"), Ok(Arc::new(GlobalLimitExec::new(left1(), skip, fetch))), true, false);
+    }
+    push("LocalLimitExec 1".into(), Ok(Arc::new(LocalLimitExec::new(left(), 1))), true, false);
+    let pred = binary(c("a", &ls), Operator::Gt, lit(1i64), &ls).unwrap();
+    push("FilterExec".into(), FilterExec::try_new(pred.clone(), left()).map(|x| Arc::new(x) as Arc<dyn ExecutionPlan>), true, false);
+    push("FilterExec with projection + selectivity".into(), FilterExec::try_new(pred.clone(), left()).and_then(|x| x.with_default_selectivity(37)).and_then(|x| x.with_projection(Some(vec![2, 0]))).map(|x| Arc::new(x) as Arc<dyn ExecutionPlan>), true, false);
+    push("ProjectionExec".into(), ProjectionExec::try_new(vec![(binary(c("a", &ls), Operator::Plus, c("b", &ls), &ls).unwrap(), "a+b".to_string()), (c("s", &ls), "S".to_string())], left()).map(|x| Arc::new(x) as Arc<dyn ExecutionPlan>), true, false);
+    for p in [Partitioning::RoundRobinBatch(3), Partitioning::Hash(vec![c("a", &ls), c("s", &ls)], 4), Partitioning::UnknownPartitioning(2)] {
+        let name = format!("RepartitionExec {p:?}");
+        push(name, RepartitionExec::try_new(left(), p).map(|x| Arc::new(x) as Arc<dyn ExecutionPlan>), true, false);
+    }
+    push("RepartitionExec preserve order".into(), RepartitionExec::try_new(Arc::new(SortExec::new(sort_exprs(&ls, &[("a", true, true)]), left()).with_preserve_partitioning(true)), Partitioning::RoundRobinBatch(3)).map(|x| Arc::new(x.with_preserve_order()) as Arc<dyn ExecutionPlan>), true, false);
+    push("UnionExec".into(), UnionExec::try_new(vec![left(), left1()]), true, false);
+    let _ = Column::new("a", 0);
+    v
+}
+
+fn witness_cases(_ctx: &SessionContext) -> Vec<Case> { vec![] }
+
+async fn run_op(ctx: &SessionContext, id: usize, case: &Case) {
+    let (name, key, plan, exec, ordered) = case;
+    let fresh = SessionContext::new();
+    let out = check(ctx, &fresh, plan, *exec, *ordered).await;
+    let obs = observe(plan, &out);
+    let mut t = out.text.clone(); if t.len() > 1500 { t.truncate(1500); t.push_str("..."); }
+    let (hj, so) = (observe_hj(plan, &out), observe_sort(plan, &out));
+    println!("{{\"k\":\"op\",\"id\":{id},\"name\":{},\"key\":{},\"hj\":{hj},\"sort\":{so},\"bytes\":{},\"rows\":{},\"skipped\":{},\"why\":{},\"plan\":{},\"obs\":{},\"ok\":{}}}",
+        json_str(name), json_str(key), out.bytes, out.rows, out.skipped.as_ref().map(|s| json_str(&s[..s.len().min(400)])).unwrap_or("null".into()),
+        out.why.as_ref().map(|s| json_str(&s[..s.len().min(1500)])).unwrap_or("null".into()), json_str(&t), obs_json(&obs), out.ok);
+}
+
+// ------------------------------------------------------------------------------------------------ SQL plans
+fn column(t: Ty, vals: &[&V]) -> ArrayRef {
+    match t {
+        Ty::Int | Ty::Rat => Arc::new(Int64Array::from(vals.iter().map(|v| match v { V::I(z) => Some(*z), _ => None }).collect::<Vec<_>>())),
+        Ty::Bool => Arc::new(BooleanArray::from(vals.iter().map(|v| match v { V::B(b) => Some(*b), _ => None }).collect::<Vec<_>>())),
+        Ty::Str => Arc::new(StringArray::from(vals.iter().map(|v| match v { V::S(s) => Some(s.clone()), _ => None }).collect::<Vec<_>>())),
+    }
+}
+fn arrow_ty(t: Ty) -> DataType { match t { Ty::Int | Ty::Rat => DataType::Int64, Ty::Bool => DataType::Boolean, Ty::Str => DataType::Utf8 } }
+fn tab_schema(t: &Tab) -> SchemaRef { Arc::new(Schema::new(t.types.iter().enumerate().map(|(i, ty)| Field::new(format!("c{i}"), arrow_ty(*ty), true)).collect::<Vec<_>>())) }
+fn tab_parts(t: &Tab) -> Vec<Vec<RecordBatch>> {
+    let schema = tab_schema(t);
+    (0..t.parts).map(|p| {
+        let rows: Vec<&Vec<V>> = t.rows.iter().enumerate().filter(|(i, _)| i % t.parts == p).map(|(_, r)| r).collect();
+        let cols: Vec<ArrayRef> = (0..t.types.len()).map(|c| column(t.types[c], &rows.iter().map(|r| &r[c]).collect::<Vec<_>>())).collect();
+        vec![RecordBatch::try_new(schema.clone(), cols).unwrap()]
+    }).collect()
+}
+fn write_table(dir: &str, name: &str, t: &Tab) -> String {
+    let tdir = format!("{dir}/{name}");
+    std::fs::create_dir_all(&tdir).unwrap();
+    for (p, bs) in tab_parts(t).into_iter().enumerate() {
+        let f = std::fs::File::create(format!("{tdir}/part-{p}.parquet")).unwrap();
+        let mut w = datafusion::parquet::arrow::ArrowWriter::try_new(f, tab_schema(t), None).unwrap();
+        w.write(&bs[0]).unwrap();
+        w.close().unwrap();
+    }
+    tdir
+}
+
+#[derive(Clone)]
+struct Conf { name: &'static str, tp: usize, parquet: bool, prefer_hash_join: bool, repartition_joins: bool, hash_join_threshold: Option<usize>, dyn_filters: bool }
+const CONFS: [Conf; 5] = [
+    Conf { name: "mem tp=1", tp: 1, parquet: false, prefer_hash_join: true, repartition_joins: true, hash_join_threshold: None, dyn_filters: true },
+    Conf { name: "mem tp=3 partitioned joins", tp: 3, parquet: false, prefer_hash_join: true, repartition_joins: true, hash_join_threshold: Some(0), dyn_filters: true },
+    Conf { name: "mem tp=2 sort-merge joins", tp: 2, parquet: false, prefer_hash_join: false, repartition_joins: true, hash_join_threshold: None, dyn_filters: false },
+    Conf { name: "parquet tp=2", tp: 2, parquet: true, prefer_hash_join: true, repartition_joins: true, hash_join_threshold: None, dyn_filters: true },
+    Conf { name: "parquet tp=4 no join repartition", tp: 4, parquet: true, prefer_hash_join: true, repartition_joins: false, hash_join_threshold: None, dyn_filters: true },
+];
+
+async fn mk_ctx(conf: &Conf, names: &[String], tabs: &[Tab], dir: &str, tag: &str) -> SessionContext {
+    let mut cfg = SessionConfig::new().with_target_partitions(conf.tp).with_repartition_joins(conf.repartition_joins);
+    cfg.options_mut().optimizer.prefer_hash_join = conf.prefer_hash_join;
+    cfg.options_mut().optimizer.enable_dynamic_filter_pushdown = conf.dyn_filters;
+    if let Some(t) = conf.hash_join_threshold { cfg.options_mut().optimizer.hash_join_single_partition_threshold = t; cfg.options_mut().optimizer.hash_join_single_partition_threshold_rows = t; }
+    let ctx = SessionContext::new_with_config(cfg);
+    for (n, t) in names.iter().zip(tabs) {
+        if conf.parquet {
+            let d = write_table(dir, &format!("{tag}_{n}"), t);
+            ctx.register_parquet(n.as_str(), d.as_str(), ParquetReadOptions::default()).await.unwrap();
+        } else {
+            ctx.register_table(n.as_str(), Arc::new(MemTable::try_new(tab_schema(t), tab_parts(t)).unwrap())).unwrap();
+        }
+    }
+    ctx
+}
+
+fn corpus() -> Vec<&'static str> {
+    // over a(c0 BIGINT, c1 BIGINT, c2 VARCHAR, c3 BOOLEAN) and b(c0 BIGINT, c1 BIGINT, c2 VARCHAR)
+    vec![
+        "SELECT c0, sum(c1) OVER (PARTITION BY c3 ORDER BY c0 ROWS BETWEEN 1 PRECEDING AND 1 FOLLOWING) FROM a",
+        "SELECT c0, count(*) OVER (ORDER BY c0 RANGE BETWEEN 2 PRECEDING AND CURRENT ROW), row_number() OVER (ORDER BY c0 DESC NULLS LAST, c1) FROM a",
+        "SELECT c0, min(c1) OVER (ORDER BY c0 GROUPS BETWEEN UNBOUNDED PRECEDING AND 1 FOLLOWING), lag(c1, 1) IGNORE NULLS OVER (ORDER BY c0) FROM a",
+        "SELECT first_value(c1) OVER (PARTITION BY c2 ORDER BY c0), last_value(c1) OVER (PARTITION BY c2 ORDER BY c0 ROWS BETWEEN UNBOUNDED PRECEDING AND UNBOUNDED FOLLOWING) FROM a",
+        "SELECT unnest(make_array(c0, c1, 7)) AS u, c2 FROM a",
+        "WITH RECURSIVE r AS (SELECT 1 AS n UNION ALL SELECT n + 1 FROM r WHERE n < 5) SELECT * FROM r",
+        "SELECT a.c0, b.c1 FROM a JOIN b ON a.c0 = b.c0",
+        "SELECT a.c0, b.c1 FROM a LEFT JOIN b ON a.c0 = b.c0 AND a.c1 > b.c1",
+        "SELECT a.c0, b.c1 FROM a RIGHT JOIN b ON a.c0 = b.c0",
+        "SELECT a.c0, b.c1 FROM a FULL JOIN b ON a.c0 = b.c0 WHERE a.c2 IS DISTINCT FROM b.c2",
+        "SELECT a.c0, b.c1 FROM a JOIN b ON a.c0 IS NOT DISTINCT FROM b.c0",
+        "SELECT a.c0 FROM a, b WHERE a.c1 < b.c1",
+        "SELECT c0 FROM a WHERE c0 IN (SELECT c0 FROM b)",
+        "SELECT c0 FROM a WHERE c0 NOT IN (SELECT c1 FROM b)",
+        "SELECT c0 FROM a WHERE EXISTS (SELECT 1 FROM b WHERE b.c0 = a.c0 AND b.c1 > a.c1)",
+        "SELECT c0 FROM a WHERE NOT EXISTS (SELECT 1 FROM b WHERE b.c0 = a.c0)",
+        "SELECT c0, (SELECT max(c1) FROM b WHERE b.c0 = a.c0) FROM a",
+        "SELECT c0, (SELECT max(c1) FROM b) FROM a",
+        "SELECT * FROM a CROSS JOIN b",
+        "SELECT a.c0 FROM a LEFT SEMI JOIN b ON a.c0 = b.c0",
+        "SELECT a.c0 FROM a LEFT ANTI JOIN b ON a.c0 = b.c0",
+        "SELECT b.c1 FROM a RIGHT SEMI JOIN b ON a.c0 = b.c0",
+        "SELECT b.c1 FROM a RIGHT ANTI JOIN b ON a.c0 = b.c0",
+        "SELECT c2, count(*), sum(c1), avg(c1), min(c0), max(c0), count(DISTINCT c1) FROM a GROUP BY c2 HAVING count(*) > 0 ORDER BY c2 NULLS FIRST",
+        "SELECT c2, c3, sum(c0) FROM a GROUP BY ROLLUP (c2, c3)",
+        "SELECT c2, c3, sum(c0), grouping(c2) FROM a GROUP BY GROUPING SETS ((c2), (c3), ())",
+        "SELECT c2, max(c0) FROM a GROUP BY c2 ORDER BY max(c0) DESC LIMIT 2",
+        "SELECT c0 FROM a UNION SELECT c0 FROM b",
+        "SELECT c0 FROM a UNION ALL SELECT c1 FROM b",
+        "SELECT c0 FROM a INTERSECT SELECT c0 FROM b",
+        "SELECT c0 FROM a EXCEPT SELECT c0 FROM b",
+        "SELECT DISTINCT c2 FROM a",
+        "SELECT DISTINCT ON (c2) c2, c0 FROM a ORDER BY c2, c0 DESC",
+        "SELECT c0 FROM a ORDER BY c0 DESC NULLS FIRST LIMIT 3 OFFSET 1",
+        "SELECT c0, c1 FROM a ORDER BY c1 NULLS FIRST, c0 DESC",
+        "SELECT c0 FROM a ORDER BY c0 LIMIT 2",
+        "SELECT c0 FROM a LIMIT 0",
+        "SELECT a.c0, b.c1 FROM a JOIN b ON a.c0 = b.c0 ORDER BY b.c1 DESC LIMIT 2",
+        "SELECT CASE WHEN c0 > 1 THEN 'big' WHEN c0 IS NULL THEN NULL ELSE 'small' END, CAST(c0 AS INT), TRY_CAST(c2 AS DOUBLE), c0 BETWEEN 1 AND 2, c2 LIKE 'a%', c2 ILIKE '_b', -c0, NOT c3 FROM a",
+        "SELECT c0 IN (1, 2, NULL), c0 NOT IN (3), c3 IS TRUE, c3 IS NOT FALSE, c3 IS UNKNOWN, c2 || 'z', c0 & 3, c0 | 1, c0 # 2, c0 << 1, c0 >> 1, c0 % 2, c0 / 2 FROM a",
+        "SELECT abs(c0), coalesce(c2, 'none'), nullif(c0, 1), date_trunc('day', TIMESTAMP '2024-01-02 03:04:05'), INTERVAL '1' DAY, DATE '2020-02-29', 1.5e0, DECIMAL '1.25' FROM a",
+        "SELECT * FROM (VALUES (1, 'a'), (2, NULL)) AS v(k, t)",
+        "SELECT array_agg(c0 ORDER BY c1 DESC), string_agg(c2, ',') FROM a",
+        "SELECT sum(c0) FILTER (WHERE c3), count(*) FILTER (WHERE c1 > 0) FROM a",
+        "SELECT c2 ~ '^a', c2 !~* 'B' FROM a",
+        "SELECT * FROM generate_series(1, 5)",
+        "EXPLAIN SELECT c0 FROM a",
+        "EXPLAIN ANALYZE SELECT c0 FROM a",
+        "COPY (SELECT c0, c2 FROM a) TO '/tmp/c36_copy_out.csv' STORED AS CSV OPTIONS ('format.delimiter' ';')",
+        "COPY (SELECT c0 FROM a) TO '/tmp/c36_copy_out.parquet' STORED AS PARQUET",
+        "COPY (SELECT c0 FROM a) TO '/tmp/c36_copy_out.json' STORED AS JSON",
+        "INSERT INTO b SELECT c0, c1, c2 FROM a",
+    ]
+}
+
+fn fixed_tables() -> Vec<Tab> {
+    let n = V::Null;
+    let i = |z: i64| V::I(z);
+    let s = |x: &str| V::S(x.to_string());
+    vec![
+        Tab { types: vec![Ty::Int, Ty::Int, Ty::Str, Ty::Bool], parts: 2, rows: vec![
+            vec![i(1), i(10), s("a"), V::B(true)], vec![i(2), n.clone(), s("ab"), V::B(false)], vec![i(2), i(-3), n.clone(), n.clone()], vec![n.clone(), i(4), s(""), V::B(true)],
+            vec![i(3), i(0), s("a"), V::B(false)], vec![i(5), i(7), s("b"), n.clone()], vec![i(1), i(1), s("ab"), V::B(true)]] },
+        Tab { types: vec![Ty::Int, Ty::Int, Ty::Str], parts: 1, rows: vec![
+            vec![i(1), i(5), s("a")], vec![i(2), n.clone(), s("b")], vec![n.clone(), i(2), n.clone()], vec![i(4), i(4), s("")], vec![i(2), i(9), s("ab")]] },
+    ]
+}
+
+async fn sql_case(conf: Conf, names: Vec<String>, tabs: Vec<Tab>, dir: String, id: String, stream: String, sql: String) {
+    let ctx = mk_ctx(&conf, &names, &tabs, &dir, &format!("{id}_o")).await;
+    let fresh = mk_ctx(&conf, &names, &tabs, &dir, &format!("{id}_o")).await;
+    let head = format!("\"k\":\"plan\",\"id\":\"{id}\",\"stream\":\"{stream}\",\"conf\":\"{}\",\"sql\":{}", conf.name, json_str(&sql));
+    let df = match ctx.sql(&sql).await { Ok(d) => d, Err(e) => { println!("{{{head},\"plan_err\":{},\"nodes\":[],\"ok\":true}}", json_str(&e.to_string()[..e.to_string().len().min(300)])); return; } };
+    let exec = !(sql.starts_with("COPY") || sql.starts_with("INSERT") || sql.starts_with("EXPLAIN"));
+    let plan = match df.create_physical_plan().await { Ok(p) => p, Err(e) => { println!("{{{head},\"plan_err\":{},\"nodes\":[],\"ok\":true}}", json_str(&e.to_string()[..e.to_string().len().min(300)])); return; } };
+    let ordered = format!("{}", displayable(plan.as_ref()).one_line()).starts_with("Sort");
+    let out = check(&ctx, &fresh, &plan, exec, ordered).await;
+    let mut kinds: Vec<String> = out.text.lines().map(|l| kind_name(l.trim_start())).collect(); kinds.sort(); kinds.dedup();
+    let mut t = out.text.clone(); if t.len() > 2500 { t.truncate(2500); t.push_str("..."); }
+    println!("{{{head},\"plan_err\":null,\"nodes\":[{}],\"bytes\":{},\"rows\":{},\"skipped\":{},\"why\":{},\"plan\":{},\"ok\":{}}}",
+        kinds.iter().map(|k| format!("\"{k}\"")).collect::<Vec<_>>().join(","), out.bytes, out.rows,
+        out.skipped.as_ref().map(|s| json_str(&s[..s.len().min(400)])).unwrap_or("null".into()),
+        out.why.as_ref().map(|s| json_str(&s[..s.len().min(2500)])).unwrap_or("null".into()), if out.ok && out.skipped.is_none() { "null".to_string() } else { json_str(&t) }, out.ok);
+}
+
+fn run_sql_case(conf: Conf, names: Vec<String>, tabs: Vec<Tab>, dir: String, id: String, stream: String, sql: String) {
+    let rt = tokio::runtime::Builder::new_multi_thread().worker_threads(2).enable_all().build().unwrap();
+    let (id2, stream2, sql2, cn) = (id.clone(), stream.clone(), sql.clone(), conf.name);
+    let h = rt.spawn(async move { tokio::time::timeout(std::time::Duration::from_secs(30), sql_case(conf, names, tabs, dir, id2, stream2, sql2)).await });
+    let head = format!("\"k\":\"plan\",\"id\":\"{id}\",\"stream\":\"{stream}\",\"conf\":\"{cn}\",\"sql\":{}", json_str(&sql));
+    match rt.block_on(h) {
+        Ok(Ok(())) => {}
+        Ok(Err(_)) => println!("{{{head},\"plan_err\":\"timeout: case did not finish in 30 s\",\"nodes\":[],\"ok\":true}}"),
+        Err(e) => {
+            let msg = if e.is_panic() { panic_msg(e.into_panic()) } else { "task cancelled".into() };
+            println!("{{{head},\"plan_err\":null,\"nodes\":[],\"bytes\":0,\"rows\":-1,\"skipped\":null,\"why\":{},\"plan\":null,\"ok\":false}}", json_str(&format!("panic: {msg}")));
+        }
+    }
+    rt.shutdown_background();
+}
+
+fn main() {
+    let args: Vec<String> = std::env::args().collect();
+    let seed: u64 = arg(&args, "--seed", "1").parse().unwrap();
+    let n: u64 = arg(&args, "--n", "40").parse().unwrap();
+    let dir = arg(&args, "--dir", &format!("/tmp/c36_{}", std::process::id()));
+    std::panic::set_hook(Box::new(|_| {}));
+    let _ = std::fs::remove_dir_all(&dir);
+    std::fs::create_dir_all(&dir).unwrap();
+
+    // operators
+    {
+        let rt = tokio::runtime::Builder::new_multi_thread().worker_threads(2).enable_all().build().unwrap();
+        let ctx = SessionContext::new();
+        let mut cases = witness_cases(&ctx);
+        cases.extend(op_cases(&ctx));
+        for (id, case) in cases.iter().enumerate() {
+            let r = catch_unwind(AssertUnwindSafe(|| rt.block_on(async { tokio::time::timeout(std::time::Duration::from_secs(30), run_op(&ctx, id, case)).await })));
+            match r {
+                Ok(Ok(())) => {}
+                Ok(Err(_)) => println!("{{\"k\":\"op\",\"id\":{id},\"name\":{},\"key\":\"\",\"bytes\":0,\"rows\":-1,\"skipped\":\"timeout\",\"why\":null,\"plan\":\"\",\"obs\":[],\"ok\":true}}", json_str(&case.0)),
+                Err(p) => println!("{{\"k\":\"op\",\"id\":{id},\"name\":{},\"key\":\"\",\"bytes\":0,\"rows\":-1,\"skipped\":null,\"why\":{},\"plan\":\"\",\"obs\":[],\"ok\":false}}", json_str(&case.0), json_str(&format!("panic: {}", panic_msg(p)))),
+            }
+        }
+        rt.shutdown_background();
+    }
+    // SQL corpus under every configuration
+    let ft = fixed_tables();
+    let fnames = vec!["a".to_string(), "b".to_string()];
+    for (k, sql) in corpus().into_iter().enumerate() {
+        for (ci, conf) in CONFS.iter().enumerate() {
+            run_sql_case(conf.clone(), fnames.clone(), ft.clone(), dir.clone(), format!("corpus-{k}-{ci}"), "corpus".into(), sql.to_string());
+        }
+    }
+    // C01 generator
+    let mut rng = Rng::new(seed);
+    for cid in 0..n {
+        let stream = STREAMS[(cid % STREAMS.len() as u64) as usize];
+        let tabs = Gen::gen_tables(&mut rng);
+        let conf = CONFS[rng.below(CONFS.len() as u64) as usize].clone();
+        let (q, widths) = { let mut g = Gen { rng: &mut rng, tabs: tabs.clone() }; let q = g.query(stream); (q, g.tab_widths()) };
+        let sql = to_sql(&q, &widths);
+        let names: Vec<String> = (0..tabs.len()).map(|i| format!("t{i}")).collect();
+        run_sql_case(conf, names, tabs, dir.clone(), format!("gen-{cid}"), stream.to_string(), sql);
+    }
+    let _ = std::fs::remove_dir_all(&dir);
+}
